@@ -1715,7 +1715,8 @@ int get_char (svalue_t * fun, int flag, int num_arg, svalue_t * args) {
 }
 
 void print_svalue (svalue_t * arg) {
-  char tbuf[2048];
+  /* room for "OBJ(/" and ")" around the longest object name (a name is a path) */
+  char tbuf[PATH_MAX + 16];
 
   if (arg == 0)
     {
@@ -1729,7 +1730,7 @@ void print_svalue (svalue_t * arg) {
         tell_object (command_giver, arg->u.string);
         break;
       case T_OBJECT:
-        sprintf (tbuf, "OBJ(/%s)", arg->u.ob->name);
+        snprintf (tbuf, sizeof (tbuf), "OBJ(/%s)", arg->u.ob->name);
         tell_object (command_giver, tbuf);
         break;
       case T_NUMBER:
